@@ -53,6 +53,16 @@ CHECKS["C08"] = dict(
     modelled="readMessage, readHeader (hand transcription). Partial: the full-strength statement is false of the pinned code "
              "(known findings); websocket/legacy read granularity is not driven at this layer.")
 
+CHECKS["C06"] = dict(
+    text="Theorems: for every list of host reads of at most FORWARD_BUF bytes (i.e. every segmentation of the host stream) each "
+         "packet sent to the client is one well-formed DATA packet under the reference decoder and the concatenated payloads are "
+         "the host stream; FORWARD_BUF < 65536 is re-checked against the regenerated constant; what receive() writes to the host "
+         "is exactly the declared payload of the DATA body (the bytes carried when the length field exceeds them); every "
+         "interleaving of the two directions decomposes into its projections. The real forward()/receive() are run concurrently "
+         "over net.Pipe on boundary sizes, bad length fields and MiB streams; the extracted specification is the oracle.",
+    design="7/C06", technique="Coq proof (decoder-after-encoder lemmas, induction over chunk lists and op interleavings) + extracted-model correspondence",
+    modelled="forward(), receive(), createPacket (hand transcription); kernel TCP segmentation replaced by net.Pipe hand-over.")
+
 NOT_YET = {}
 
 
